@@ -253,7 +253,7 @@ pub fn scn_unsorted(out: &mut TraceOut, r: &mut R, idx: u64, heavy: bool) {
     let p = r.gen_range(1..n);
     if r.gen_ratio(1, 4) {
         // the disturbed entry carries a value of at least one block (value-size dependent paths)
-        let len = cfg.block_size.max(1024) + r.gen_range(0..200);
+        let len = cfg.block_size.clamp(1024, 70_000) + r.gen_range(0..200);
         entries[p].1 = value_for(p as u32 + 1, len);
     }
     match idx % 8 {
